@@ -13,6 +13,8 @@ import Scale.EntryEnc
 import Scale.Like
 import Scale.Derive
 import Scale.Ledger
+import Scale.HookTrace
+import Scale.Wf
 namespace Scale.Driver
 open Scale
 
@@ -403,6 +405,22 @@ def answer (line : String) : String :=
       | some bs => showResVal (decodeAllLimit l ty bs)
       | none => "bad-op"
     | _, _ => "bad-op"
+  | "payload" :: rest =>
+    -- C12: the heap payload of a value (what `used_mem()` ends at after decoding its encoding)
+    match parseTy rest with
+    | some (ty, r) =>
+      match parseVal r with
+      | some (v, []) => if wf ty v then toString (min (payload ty v) usizeMax) else "err"
+      | _ => "bad-op"
+    | none => "bad-op"
+  | "nesting" :: rest =>
+    -- C11: the container nesting of a value (the least depth limit its encoding decodes under)
+    match parseTy rest with
+    | some (ty, r) =>
+      match parseVal r with
+      | some (v, []) => if wf ty v then toString (nesting ty v) else "err"
+      | _ => "bad-op"
+    | none => "bad-op"
   | "limit" :: l :: rest =>
     match l.toNat?, parseTy rest with
     | some l, some (ty, [h]) =>
